@@ -42,8 +42,8 @@ CFG = dict(
                  "a decoder call that never returns is a watchdog exit (inconclusive), never a violation; "
                  "only deterministic step bounds in the harness' own loop are violations"],
     floor=dict(evaluations=800000, nontrivial=40000, counters=_COUNTERS),
-    quick=[e1("q", "c03", "debug", 4, 40, nshards=4),
-           e1("q", "c03", "release", 4, 40, nshards=4)],
+    quick=[e1("q", "c03", "debug", 4, 120, nshards=4),
+           e1("q", "c03", "release", 4, 120, nshards=4)],
     thorough=[e1("sys", "c03", "debug", 8, 240, nshards=8, part="bgp-systematic"),
               e1("sys", "c03", "release", 8, 240, nshards=8, part="bgp-systematic"),
               e1("rnd", "c03", "debug", 4, 120, nshards=4, part="bgp-random"),
